@@ -600,7 +600,7 @@ pub fn models(tier: Tier, seed: u64) -> Vec<Box<dyn DynModel>> {
 }
 
 pub fn describe(_tier: Tier, r: &mut Report) {
-    r.rule = "part 1: every entry of the golden corpus written by the pinned release (every data type x group x scheme in bytes / serde_bare / serde_json form, plus scenarios with the secrets needed to open them): decode, re-encode to the pinned bytes, carry through each other codec and back, and re-run the scenario (verify / decrypt / recombine) comparing with the result recorded at the pinned release. part 2: for scheme x 2 keys x lengths {0,5,30,31,32,33,45,127,128,200,16383,16384} x identifiers x 3 entropy answers, the library's signcryption and time-lock ciphertexts must be bit-identical to the reference's from the same entropy answer and the reference opens them; one action reverses the direction (the library opens / verifies what the reference made); proofs of knowledge (interactive, timestamp) and ElGamal proofs are exchanged in both directions".into();
+    r.rule = "part 1: every entry of the golden corpus written by the pinned release (every data type x group x scheme in bytes / serde_bare / serde_json form, plus scenarios with the secrets needed to open them): decode, re-encode to the pinned bytes, carry through each other codec and back, and re-run the scenario (verify / decrypt / recombine) comparing with the result recorded at the pinned release. part 2: for scheme x 2 keys x lengths {0,5,30,31,32,33,45,127,128,200,16383,16384} x identifiers x 3 entropy answers, the library's signcryption and time-lock ciphertexts must be bit-identical to the reference's from the same entropy answer and the reference opens them; one action reverses the direction (the library opens / verifies what the reference made); proofs of knowledge (interactive, timestamp) and ElGamal proofs are exchanged in both directions; time-lock identifiers include the four values built from the recipient public key bytes".into();
     r.deviation_bound_completed = "n/a (both directions of every exchange)".into();
     r.assumptions = vec!["SecretKeyEnum's byte form is absent from the corpus: at the pinned release it was not self-readable (fixed defect D1); its serde forms are pinned".into(), "augmentation-scheme time-lock ciphertexts of the pinned release are pinned with both results that held there (scheme signature opens nothing; the trait-level signature over the bare identifier opens the message)".into()];
 }
